@@ -228,6 +228,7 @@ def run(rep: Report, prog: Program, tier: str) -> None:
     # flush request (an empty packet) must never be produced from received data
     decode_rule(rep, prog)
     _sack_premise(rep, prog, tier)
+    sack_size_rule(rep, prog)
 
 
 def decode_rule(rep: Report, prog: Program) -> None:
@@ -327,3 +328,52 @@ def _sack_premise(rep: Report, prog: Program, tier: str) -> None:
     import_rules(rep, prog, tier, "C05", "C05-STATE", "C02", ["C02-REINIT", "C02-SETUP", "C02-LOOP"],
                  "handshake chunks arriving in a state they do not belong to change nothing (rules C02-REINIT, C02-SETUP); under duplication the receiver reports each duplicate once and its "
                  "bookkeeping does not grow (rule C02-LOOP)", 20)
+
+
+def sack_size_rule(rep: Report, prog: Program) -> None:
+    """C05-SACKSIZE: the reply to a datagram must stay in proportion to it.  _send_sack() is evaluated on receiver states a peer can build up with small well-formed
+    datagrams - thousands of isolated out-of-order TSNs (one gap ack block each), a long duplicate list - and the SACK it builds has to fit into one packet."""
+    from collections import deque
+    from types import SimpleNamespace as NS
+
+    from engine.index import Unknown
+    from engine.peval import Raised
+    from engine.report import mk_finding
+
+    from .sctpmodel import build
+    RULE = "C05-SACKSIZE"
+    rep.rule(RULE, "the SACK built by _send_sack() fits into one packet whatever set of out-of-order / duplicate TSNs the peer has produced", min_instances=3)
+    T_ = "rtcsctptransport.RTCSctpTransport"
+    ss = prog.func(T_ + "._send_sack")
+    out = []
+
+    def st_send(call, ev):
+        out.append(ev.ev(call.args[0]))
+        return None
+
+    def st_sack(call, ev):
+        return NS(kind="sack", cumulative_tsn=0, advertised_rwnd=0, duplicates=[], gaps=[], flags=0)
+    hook, _chunk, _message = build(prog, {"self._send_chunk": st_send, "SackChunk": st_sack})
+    mtu = prog.const(prog.module("rtcsctptransport"), "USERDATA_MAX_LENGTH")
+    for label, mis, dups in (("5000 isolated out-of-order TSNs", {100 + 2 * k for k in range(1, 5001)}, []),
+                             ("5000 isolated out-of-order TSNs across the TSN wrap", {((1 << 32) - 50 + 2 * k) % (1 << 32) for k in range(1, 5001)}, []),
+                             ("4000 duplicate TSNs reported at once and 200 gaps", {100 + 2 * k for k in range(1, 201)}, [90] * 4000)):
+        del out[:]
+        cum = 100 if "wrap" not in label else (1 << 32) - 50
+        me = NS(__cls__=prog.cls(T_), _last_received_tsn=cum, _sack_misordered=set(mis), _sack_duplicates=list(dups), _advertised_rwnd=1000, _sack_needed=True)
+        try:
+            hook.run_method(ss, me, [], {})
+        except Raised as ex:
+            rep.fail(mk_finding(prog, "C05", RULE, ss, getattr(ex, "node", None), f"[{label}] _send_sack raises {ex.name}", construct=f"sack raises {ex.name}"))
+            continue
+        except Unknown as ex:
+            raise AnalysisError(f"{RULE} cannot evaluate _send_sack [{label}]: {ex}")
+        if len(out) != 1:
+            raise AnalysisError(f"{RULE}: {len(out)} chunks sent by _send_sack")
+        size = 16 + 4 * len(out[0].gaps) + 4 * len(out[0].duplicates)
+        if size <= mtu + 28:
+            rep.ok(RULE, label, sample=f"{len(out[0].gaps)} gap blocks, {len(out[0].duplicates)} duplicates: {size} bytes")
+        else:
+            rep.fail(mk_finding(prog, "C05", RULE, ss, ss.node, f"[{label}] the SACK carries {len(out[0].gaps)} gap ack blocks and {len(out[0].duplicates)} duplicate TSNs = {size} bytes: a peer that sends small "
+                                "datagrams with isolated out-of-order TSNs makes every reply grow; beyond the DTLS record size the send fails and the exception ends the receive loop",
+                                construct="SACK size is not bounded"))
